@@ -314,6 +314,12 @@ again:
 func genC12(t *rapid.T) C12Case {
 	l := genCLILayout(t)
 	now := genNowRealistic(t, l)
+	if rapid.IntRange(0, 9).Draw(t, "epochHigh") == 0 {
+		// a clock after 2038: timestamps beyond 31 bits travel through the query string
+		if hi := int64(1)<<32 - 4*l.MaxRet() - 1000000; hi > 1<<31 {
+			now = rapid.Int64Range(1<<31-3, hi).Draw(t, "nowHigh")
+		}
+	}
 	c := C12Case{Now: now, ArchiveID: -1}
 	c.Files = genTree(t, l, now, rapid.IntRange(0, 5).Draw(t, "allowMismatch") == 0)
 	if rapid.IntRange(0, 3).Draw(t, "oddNames") == 0 {
